@@ -169,11 +169,69 @@ static int choose(char kind, int nalts, int free_, const char *info)
     return c;
 }
 
+
+/* ---------------------------------------------------------------------------------------------- fork server
+ * VSCHED_SERVER="<rfd>,<wfd>": at the first pthread_create (mode t) / pipe (mode p) -- i.e. when the real
+ * executor starts, after command-line parsing and library loading -- the process becomes a fork server: for
+ * every line  RUN\t<stdout file>\t<stderr file>\t<trace file>\t<fault>\t<prefix>\n  read from rfd it forks; the
+ * child redirects its output, installs the choice prefix and simply continues the real run to its real exit; the
+ * server waits for it and answers  DONE <wait status>\n.  Every execution starts from the identical state. */
+static int server_r = -1, server_w = -1, served;
+static char fault_plan[4096];
+static char linebuf[1 << 20];
+
+static void parse_prefix(const char *s);
+
+static void maybe_serve(void)
+{
+    if (server_r < 0 || served) return;
+    served = 1;
+    fflush(NULL);
+    raw(SYS_write, server_w, (long)"READY\n", 6, 0, 0, 0);
+    for (;;) {
+        long n = 0;
+        for (;;) {
+            char c;
+            long r = raw(SYS_read, server_r, (long)&c, 1, 0, 0, 0);
+            if (r <= 0) raw(SYS_exit_group, 0, 0, 0, 0, 0, 0);
+            if (c == '\n') break;
+            if (n < (long)sizeof linebuf - 1) linebuf[n++] = c;
+        }
+        linebuf[n] = 0;
+        if (strncmp(linebuf, "RUN\t", 4) != 0) raw(SYS_exit_group, 0, 0, 0, 0, 0, 0);
+        char *f[5]; int nf = 0; char *p = linebuf + 4;
+        while (nf < 5) { f[nf++] = p; char *t = strchr(p, '\t'); if (!t) break; *t = 0; p = t + 1; }
+        if (nf < 5) raw(SYS_exit_group, 3, 0, 0, 0, 0, 0);
+        pid_t pid = r_fork();
+        if (pid == 0) {
+            raw(SYS_close, server_r, 0, 0, 0, 0, 0);
+            raw(SYS_close, server_w, 0, 0, 0, 0, 0);
+            int o = open(f[0], O_WRONLY | O_CREAT | O_TRUNC, 0644);
+            int e = open(f[1], O_WRONLY | O_CREAT | O_TRUNC, 0644);
+            if (o >= 0) { dup2(o, 1); raw(SYS_close, o, 0, 0, 0, 0, 0); }
+            if (e >= 0) { dup2(e, 2); raw(SYS_close, e, 0, 0, 0, 0, 0); }
+            int t = open(f[2], O_WRONLY | O_CREAT | O_APPEND | O_CLOEXEC, 0644);
+            if (t >= 0) { trace_fd = fcntl(t, F_DUPFD_CLOEXEC, 500); raw(SYS_close, t, 0, 0, 0, 0, 0); }
+            strncpy(fault_plan, f[3], sizeof fault_plan - 1);
+            prefix_len = 0; point_idx = 0;
+            parse_prefix(f[4]);
+            return;
+        }
+        int st = 0;
+        while (raw(SYS_wait4, pid, (long)&st, 0, 0, 0, 0) == -EINTR) {}
+        char ans[64];
+        int k = snprintf(ans, sizeof ans, "DONE %d\n", st);
+        raw(SYS_write, server_w, (long)ans, k, 0, 0, 0);
+    }
+}
+
 /* ---------------------------------------------------------------------------------------------- init */
 static void parse_prefix(const char *s)
 {
-    prefix_alt = calloc(MAXPREFIX, sizeof(int));
-    prefix_n = calloc(MAXPREFIX, sizeof(int));
+    if (!prefix_alt) {
+        prefix_alt = calloc(MAXPREFIX, sizeof(int));
+        prefix_n = calloc(MAXPREFIX, sizeof(int));
+    }
     while (s && *s && prefix_len < MAXPREFIX) {
         char *e;
         long a = strtol(s, &e, 10);
@@ -210,6 +268,10 @@ __attribute__((constructor)) static void vsched_init(void)
     const char *h = getenv("VSCHED_HORIZON");
     if (h && *h) horizon = atoi(h);
     parse_prefix(getenv("VSCHED_PREFIX"));
+    const char *fp = getenv("VSCHED_FAULT");
+    if (fp) strncpy(fault_plan, fp, sizeof fault_plan - 1);
+    const char *sv = getenv("VSCHED_SERVER");
+    if (sv && *sv) sscanf(sv, "%d,%d", &server_r, &server_w);
     my_tid = 0;
     T[0].used = 1; T[0].started = 1;
     T[0].pt = pthread_self();
@@ -336,6 +398,7 @@ int pthread_create(pthread_t *pt, const pthread_attr_t *attr, void *(*fn)(void *
 {
     resolve();
     if (!tmode()) return r_create(pt, attr, fn, arg);
+    maybe_serve();
     if (nthr >= MAXT) die(95, "TOO-MANY-THREADS");
     struct start *s = malloc(sizeof *s);
     s->fn = fn; s->arg = arg; s->tid = nthr;
@@ -403,6 +466,7 @@ static int pmode_parent(void) { return mode == 'p' && !is_worker; }
 int pipe(int fds[2])
 {
     resolve();
+    if (pmode_parent()) maybe_serve();
     int r = r_pipe(fds);
     if (r == 0 && pmode_parent()) { last_pipe_r = fds[0]; last_pipe_w = fds[1]; }
     return r;
@@ -410,7 +474,7 @@ int pipe(int fds[2])
 
 static void parse_fault(void)
 {
-    const char *f = getenv("VSCHED_FAULT");   /* "w:k:kind;w:k:kind"  k = number | e (at exit) */
+    const char *f = fault_plan;   /* "w:k:kind;w:k:kind"  k = number | e (at exit) */
     while (f && *f) {
         char *e;
         long w = strtol(f, &e, 10);
